@@ -10,7 +10,7 @@ ENGINE = 'detsched'
 TECHNIQUE = 'runtime monitoring under a deterministic cooperative scheduler with a virtual clock: happens-after checker (no dispatch and no timed posting after stop() returned), thread liveness, liveness of a second object and of the fabric, exact deadlock detection'
 RULE = ('an ActiveObject with 0-3 timed sources, 0-3 poster threads and a handler that may post, a SECOND active object and a plain queue '
         'subscribed to the fabric; stop() is called at a random virtual instant (in part of the runs while the current step of the object is arming a further timed source, in part while an application thread arms one (its arming call held at a random point by an injected virtual delay in most of these runs): such a source must be silent after stop() returned whenever its arming call had returned, or it had already posted, before stop() was called) (coinciding with a timer instant in half of the runs) from '
-        'the harness thread (in part of these runs AFTER the object\'s thread has already ended because the fabric had been stopped and restarted) or from inside one of the object\'s own handlers. After stop() returned from outside: the object\'s thread has '
+        'the harness thread or - in a third of the outside runs - from a handler of the SECOND active object (a supervisor stopping a worker; in most of these runs both objects carry the same name) (in part of the harness-thread runs AFTER the object\'s thread has already ended because the fabric had been stopped and restarted) or from inside one of the object\'s own handlers. After stop() returned from outside: the object\'s thread has '
         'ended, no dispatch-enter record and no posting by one of its timed sources carries a later step, a post to the second object is '
         'still dispatched and a fabric publication still reaches its subscriber; stop() inside a handler: no exception escapes, no further '
         'step runs after the current one, the thread has ended at quiescence; stop() never deadlocks. distinct_nontrivial = distinct '
@@ -18,7 +18,7 @@ RULE = ('an ActiveObject with 0-3 timed sources, 0-3 poster threads and a handle
 CASES = {'quick': 1200, 'thorough': 80000}
 BUDGET = {'quick': 150, 'thorough': 300}
 REQUIRE = {'runs': 500, 'stop_from_outside': 200, 'stop_from_handler': 150, 'runs_with_timed_sources': 300, 'stop_coincides_with_posting': 100, 'step_arms_timed_source_during_stop': 100,
-           'application_thread_arms_source_around_stop': 100, 'application_armed_source_started_before_stop': 25, 'arming_call_held_by_injected_delay': 60, 'stop_called_after_the_thread_had_already_ended': 30}
+           'application_thread_arms_source_around_stop': 100, 'application_armed_source_started_before_stop': 25, 'arming_call_held_by_injected_delay': 60, 'stop_called_after_the_thread_had_already_ended': 30, 'stop_called_by_a_handler_of_another_object': 100, 'stop_called_by_a_namesake_object': 50}
 ASSUME = ['instantaneous-computation time model']
 ANNOUNCE_CASES = True
 
@@ -38,8 +38,12 @@ def run_case(ctx, n):
   histB = aosim.History()
   rec = {}
   try:
+    # stop() of the first object called by the SECOND object, from one of its handlers (a supervisor stopping a worker): for the
+    # first object that is a stop() from another thread; in most of these runs the two objects carry the same name
+    peer = (not inside) and rng.random() < 0.3
+    namesake = peer and rng.random() < 0.6
     ao = aosim.make_ao(run.hist, name='A', instrumented=True)
-    aoB = aosim.make_ao(histB, name='B', instrumented=True)
+    aoB = aosim.make_ao(histB, name='A' if namesake else 'B', instrumented=True)
 
     def do_stop(chart):
       rec['call'], rec['call_clock'] = ds.S.steps, ds.S.clock
@@ -49,6 +53,7 @@ def run_case(ctx, n):
         if isinstance(ex, (ds.Abort, ds.Verdict)):
           raise
         rec['exc'] = repr(ex)
+      rec['alive_at_return'] = chart.thread.is_alive()
       rec['ret'] = ds.S.steps
     armsrc = {'i': 50, 'sig': 'TICK_ARMED', 'kind': rng.choice(['fifo', 'lifo']), 'period': rng.choice([0.01, 0.05]), 'times': 0,
               'deferred': rng.choice([True, False]), 'start_delay': 0.0}
@@ -65,6 +70,23 @@ def run_case(ctx, n):
     ext_more = rng.randint(0, 3)
     fanB = {}
     stB = aosim.make_state(histB, fanB, spied=True, name='b_state')
+    if peer:
+      from miros.event import signals as _sig, return_status as _RS
+
+      def b_supervisor(chart, e):
+        if e.signal in (_sig.ENTRY_SIGNAL, _sig.INIT_SIGNAL, _sig.EXIT_SIGNAL):
+          return _RS.HANDLED
+        if e.signal_name == 'STOP_PEER':
+          do_stop(ao)
+          return _RS.HANDLED
+        if e.signal_name == 'EVT':
+          return _RS.HANDLED
+        chart.temp.fun = chart.top
+        return _RS.SUPER
+      stB = b_supervisor
+      ctx.count('stop_called_by_a_handler_of_another_object')
+      if namesake:
+        ctx.count('stop_called_by_a_namesake_object')
     fabric_q = collections.deque()
     coincide = bool(sources) and rng.random() < 0.5
     try:
@@ -106,7 +128,7 @@ def run_case(ctx, n):
         ths[-1].start()
         ctx.count('application_thread_arms_source_around_stop')
       ds.STime.sleep(max(0.0, ts - s.clock))
-      dead_first = (not inside) and (not ext_arm) and (not arm_in_last_step) and rng.random() < 0.3
+      dead_first = (not inside) and (not peer) and (not ext_arm) and (not arm_in_last_step) and rng.random() < 0.3
       if dead_first:
         # the object's thread has already ended for another reason when stop() is called: the fabric was stopped and the
         # object woke up (it halts at its next wake-up); the fabric is restarted before anybody else wakes.  stop() must still
@@ -128,8 +150,12 @@ def run_case(ctx, n):
           # the object's current step arms a timed source while stop() is called from outside
           ao.post_fifo(Event(signal='DO', payload=1))
           ctx.count('step_arms_timed_source_during_stop')
-        do_stop(ao)
-      alive_after = ao.thread.is_alive()
+        if peer:
+          aoB.post_fifo(Event(signal='STOP_PEER'))
+          ds.S.wait_until(lambda: 'ret' in rec or not aoB.thread.is_alive(), 'stop() called by the second object returns')
+        else:
+          do_stop(ao)
+      alive_after = rec.get('alive_at_return', ao.thread.is_alive())
       # the rest of the system must keep working
       aoB.post_fifo(Event(signal='EVT', payload=424242))
       AO.ActiveFabric().publish(Event(signal='PUB_C12', payload=77))
